@@ -344,6 +344,36 @@ def generate(repo):
     except StopIteration:
         facts['be_report_before_ctx_removal'] = False
 
+    return sk, facts, notes
+
+def emit(sk, facts, notes, out):
+    L = []
+    L.append('(* GENERATED by tools/srcfacts.py from /repo on every run. Do not edit. *)')
+    L.append('From Coq Require Import String List NArith.')
+    L.append('Import ListNotations.')
+    L.append('Local Open Scope string_scope.')
+    L.append('Inductive mo := Rlx | Acq | Rel | AcqRel | Sc.')
+    for k in sorted(facts):
+        v = facts[k]
+        if isinstance(v, bool):
+            L.append('Definition %s : bool := %s.' % (k, 'true' if v else 'false'))
+        elif isinstance(v, int):
+            L.append('Definition %s : N := %d%%N.' % (k, v))
+        else:
+            L.append('Definition %s : mo := %s.' % (k, v))
+    for k in sorted(sk):
+        L.append('Definition sk_%s : list string := %s.' % (k, coq_list(sk[k])))
+    L.append('(* notes: %s *)' % ('; '.join(notes).replace('*)', '* )') if notes else 'none'))
+    txt = '\n'.join(L) + '\n'
+    os.makedirs(os.path.dirname(out), exist_ok=True)
+    old = open(out).read() if os.path.exists(out) else None
+    if old != txt:
+        open(out, 'w').write(txt)
+    return txt
+
+# ===== C02 block begin (UnboundedSPSCQueue skeletons and facts; add-only, owned by props/c02.py) =====
+def uq_facts(repo, sk, facts, notes):
+    inc = os.path.join(repo, 'include', 'quill')
     # ---- UnboundedSPSCQueue (C02, and the unbounded clause of C09)
     global MACRO_ARGS
     p = os.path.join(inc, 'core', 'UnboundedSPSCQueue.h')
@@ -391,33 +421,8 @@ def generate(repo):
     # the consumer loads `next` only after the bounded queue reported empty, and hands the loaded pointer on
     pr_ = sk['uq_prepare_read']
     facts['uq_next_load_after_empty'] = order_in(pr_, r'IF read_result\.read_pos != nullptr$', r'DECL Node\* const next_node = _consumer->next\.load')
+# ===== C02 block end =====
 
-    return sk, facts, notes
-
-def emit(sk, facts, notes, out):
-    L = []
-    L.append('(* GENERATED by tools/srcfacts.py from /repo on every run. Do not edit. *)')
-    L.append('From Coq Require Import String List NArith.')
-    L.append('Import ListNotations.')
-    L.append('Local Open Scope string_scope.')
-    L.append('Inductive mo := Rlx | Acq | Rel | AcqRel | Sc.')
-    for k in sorted(facts):
-        v = facts[k]
-        if isinstance(v, bool):
-            L.append('Definition %s : bool := %s.' % (k, 'true' if v else 'false'))
-        elif isinstance(v, int):
-            L.append('Definition %s : N := %d%%N.' % (k, v))
-        else:
-            L.append('Definition %s : mo := %s.' % (k, v))
-    for k in sorted(sk):
-        L.append('Definition sk_%s : list string := %s.' % (k, coq_list(sk[k])))
-    L.append('(* notes: %s *)' % ('; '.join(notes).replace('*)', '* )') if notes else 'none'))
-    txt = '\n'.join(L) + '\n'
-    os.makedirs(os.path.dirname(out), exist_ok=True)
-    old = open(out).read() if os.path.exists(out) else None
-    if old != txt:
-        open(out, 'w').write(txt)
-    return txt
 
 def main():
     repo = REPO; out = os.path.join(os.path.dirname(os.path.abspath(__file__)), '..', 'coq', 'gen', 'SrcFacts.v')
@@ -429,6 +434,7 @@ def main():
         elif x == '--out': out = a.pop(0)
         elif x == '--dump': dump = True
     sk, facts, notes = generate(repo)
+    uq_facts(repo, sk, facts, notes)   # C02 block
     txt = emit(sk, facts, notes, os.path.normpath(out))
     if dump:
         for k in sorted(sk):
